@@ -89,7 +89,7 @@ def harnesses(ctx) -> List[H]:
                       f'{{{t}"multipleOf": m}}', group="num", timeout=60, twin_tier=Q if typ is None else T)
     # dyadic float bounds with int values (float constant concrete)
     for kw, c in (("minimum", "0.5"), ("exclusiveMaximum", "2.0"), ("maximum", "-1.25")):
-        hs += _triple(f"c01_num_{kw}_float", f"v: {SCALAR}", SCALAR_PRE, f'{{"type": "number", "{kw}": {c}}}', group="num", tier=T, expect="unknown")
+        hs += _triple(f"c01_num_{kw}_float", f"v: {SCALAR}", SCALAR_PRE, f'{{"type": "number", "{kw}": {c}}}', group="num", tier=T)
     hs += _triple("c01_num_const", f"c: Union[int, bool, None], v: {SCALAR}", SCALAR_PRE, '{"const": c}', group="lit")
     hs += _triple("c01_num_enum", f"c1: Union[int, bool], c2: Union[int, bool, None], v: {SCALAR}", SCALAR_PRE,
                   '{"enum": [c1, c2]}', group="lit")
